@@ -102,6 +102,39 @@ def _members(res, expected, name):
             check("%s:result-%d-expected" % (name, j), Or(*[same(item(data, j), e) for e in expected]))
 
 
+
+def _post_cell(fr, o, h, w, y, x, tag=""):
+    """postcondition of cell_neighbors(y, x)"""
+    valid = And(y >= 0, y < h, x >= 0, x < w)
+    if o.raised:
+        check(tag + "raises-only-IndexError", o.exc == "IndexError")
+        check(tag + "raises-only-outside", Not(valid))
+        return
+    check(tag + "returns-only-inside", valid)
+    check(tag + "is-1d-array", isinst(o.value, A, "BoolArray1D"))
+    _members(o.value, [Hs(fr, y, x), Hs(fr, y + 1, x), Vs(fr, y, x), Vs(fr, y, x + 1)], tag + "cell")
+
+
+def _post_vertex(fr, o, h, w, y, x, tag=""):
+    """postcondition of vertex_neighbors(y, x)"""
+    valid = And(y >= 0, y <= h, x >= 0, x <= w)
+    if o.raised:
+        check(tag + "raises-only-IndexError", o.exc == "IndexError")
+        check(tag + "raises-only-outside", Not(valid))
+        return
+    check(tag + "returns-only-inside", valid)
+    exp = []
+    if y > 0:          # forks: the expected set depends on the position
+        exp.append(Vs(fr, y - 1, x))
+    if y < h:
+        exp.append(Vs(fr, y, x))
+    if x > 0:
+        exp.append(Hs(fr, y, x - 1))
+    if x < w:
+        exp.append(Hs(fr, y, x))
+    _members(o.value, exp, tag + "vertex")
+
+
 @harness("C14", cases=[dict(form="two"), dict(form="tuple")],
          native_inputs=_hw_inputs(lambda h, w: [dict(y=y, x=x) for y in range(-2, h + 2) for x in range(-2, w + 2)]))
 def cell_neighbors(case):
@@ -113,14 +146,7 @@ def cell_neighbors(case):
     y, x = sint("y"), sint("x")
     f = REAL(GF, "BoolGridFrame.cell_neighbors")
     o = call(f, fr, y, x) if case.form == "two" else call(f, fr, (y, x))
-    valid = And(y >= 0, y < h, x >= 0, x < w)
-    if o.raised:
-        check("raises-only-IndexError", o.exc == "IndexError")
-        check("raises-only-outside", Not(valid))
-        return
-    check("returns-only-inside", valid)
-    check("is-1d-array", isinst(o.value, A, "BoolArray1D"))
-    _members(o.value, [Hs(fr, y, x), Hs(fr, y + 1, x), Vs(fr, y, x), Vs(fr, y, x + 1)], "cell")
+    _post_cell(fr, o, h, w, y, x)
 
 
 @harness("C14", cases=[dict(form="two"), dict(form="tuple")],
@@ -134,22 +160,47 @@ def vertex_neighbors(case):
     y, x = sint("y"), sint("x")
     f = REAL(GF, "BoolGridFrame.vertex_neighbors")
     o = call(f, fr, y, x) if case.form == "two" else call(f, fr, (y, x))
-    valid = And(y >= 0, y <= h, x >= 0, x <= w)
-    if o.raised:
-        check("raises-only-IndexError", o.exc == "IndexError")
-        check("raises-only-outside", Not(valid))
-        return
-    check("returns-only-inside", valid)
-    exp = []
-    if y > 0:          # forks: the expected set depends on the position
-        exp.append(Vs(fr, y - 1, x))
-    if y < h:
-        exp.append(Vs(fr, y, x))
-    if x > 0:
-        exp.append(Hs(fr, y, x - 1))
-    if x < w:
-        exp.append(Hs(fr, y, x))
-    _members(o.value, exp, "vertex")
+    _post_vertex(fr, o, h, w, y, x)
+
+
+def _hist_inputs(case):
+    for h in range(0, 3):
+        for w in range(0, 3):
+            for y1 in range(-1, h + 2):
+                for x1 in range(-1, w + 2):
+                    for y in range(-1, h + 2):
+                        for x in range(-1, w + 2):
+                            yield dict(h=h, w=w, y1=y1, x1=x1, y=y, x=x)
+
+
+@harness("C14", cases=[dict(first=a, second=b) for a in ("cell", "vertex", "getitem", "dual", "all_edges") for b in ("cell", "vertex")],
+         native_inputs=_hist_inputs)
+def accessor_history(case):
+    """history: after ANY one earlier accessor call on the same frame object (any position, successful or
+    not), cell_neighbors / vertex_neighbors still satisfy their postcondition at any position -- the
+    accessors may keep state, but it must not leak between positions or between accessors"""
+    h, w = sint("h"), sint("w")
+    requires(And(h >= 0, w >= 0))
+    fr, hz, vt = mk_frame(h, w)
+    _install()
+    y1, x1 = sint("y1"), sint("x1")
+    y, x = sint("y"), sint("x")
+    if case.first == "cell":
+        call(REAL(GF, "BoolGridFrame.cell_neighbors"), fr, y1, x1)
+    elif case.first == "vertex":
+        call(REAL(GF, "BoolGridFrame.vertex_neighbors"), fr, y1, x1)
+    elif case.first == "getitem":
+        call(REAL(GF, "BoolGridFrame.__getitem__"), fr, (y1, x1))
+    elif case.first == "dual":
+        call(REAL(GF, "BoolGridFrame.dual"), fr)
+    else:
+        call(REAL(GF, "BoolGridFrame.all_edges"), fr)
+    if case.second == "cell":
+        o = call(REAL(GF, "BoolGridFrame.cell_neighbors"), fr, y, x)
+        _post_cell(fr, o, h, w, y, x, "after-%s:" % case.first)
+    else:
+        o = call(REAL(GF, "BoolGridFrame.vertex_neighbors"), fr, y, x)
+        _post_vertex(fr, o, h, w, y, x, "after-%s:" % case.first)
 
 
 @harness("C14", native_inputs=_hw_inputs(lambda h, w: [dict()]))
